@@ -1,6 +1,6 @@
 """C15 seed programs.
 
-Ten small Fortran programs (plus deterministic post-processing through public
+Twelve small Fortran programs (plus deterministic post-processing through public
 PSyclone APIs: OpenMP transformations, lowering, symbols declared in inner
 scopes).  Every call of ``build(name)`` returns a tree made of FRESH PSyIR
 objects: the fparser2 parse tree of each seed is cached per process (parsing
@@ -237,8 +237,36 @@ program main
 end program main
 '''
 
+# same-named integer scalars in nested copied scopes, each used as a loop
+# variable: a module variable `i` and a routine-local `i` (plain Fortran), plus
+# (post_shadow) an `i` declared in the body of the IfBlock with
+# new_symbol(shadowing=True) and a loop over it
+SEEDS["shadow"] = '''
+module sh_m
+  implicit none
+  integer :: i
+  real :: store(4)
+contains
+  subroutine fill(flag)
+    logical, intent(in) :: flag
+    integer :: i
+    do i = 1, 4
+      store(i) = 1.0
+    end do
+    if (flag) then
+      store(1) = 0.0
+    end if
+  end subroutine fill
+  subroutine glob()
+    do i = 1, 2
+      store(i) = 3.0
+    end do
+  end subroutine glob
+end module sh_m
+'''
+
 ORDER = ["kinds", "bounds", "initvals", "imports", "generic", "nested",
-         "loops", "omp", "omp_lowered", "dtypes", "multi"]
+         "loops", "omp", "omp_lowered", "dtypes", "multi", "shadow"]
 
 
 def post_nested(root):
@@ -276,6 +304,25 @@ def post_nested(root):
     return root
 
 
+def post_shadow(root):
+    """A loop variable declared in the body of an IfBlock that shadows the
+    routine's (and the module's) `i`."""
+    from psyclone.psyir.nodes import (IfBlock, Loop, Assignment, Reference,
+                                      ArrayReference, Literal)
+    from psyclone.psyir.symbols import DataSymbol, INTEGER_TYPE, REAL_TYPE
+    ifb = root.walk(IfBlock)[0]
+    inner = ifb.if_body.symbol_table.new_symbol(
+        "i", shadowing=True, symbol_type=DataSymbol, datatype=INTEGER_TYPE)
+    store = root.children[0].symbol_table.lookup("store")
+    body = Assignment.create(
+        ArrayReference.create(store, [Reference(inner)]),
+        Literal("2.0", REAL_TYPE))
+    ifb.if_body.addchild(Loop.create(
+        inner, Literal("1", INTEGER_TYPE), Literal("3", INTEGER_TYPE),
+        Literal("1", INTEGER_TYPE), [body]))
+    return root
+
+
 def post_bounds(root):
     """An array bound that is an expression (the frontend of this version
     only produces those as UnsupportedFortranType)."""
@@ -309,7 +356,7 @@ def post_omp_lowered(root):
     return root
 
 
-POST = {"nested": post_nested, "bounds": post_bounds, "omp": post_omp, "omp_lowered": post_omp_lowered}
+POST = {"nested": post_nested, "shadow": post_shadow, "bounds": post_bounds, "omp": post_omp, "omp_lowered": post_omp_lowered}
 
 _PARSER = None
 _TREES = {}
